@@ -1,4 +1,5 @@
 import Modbus.Lemmas.Predict
+import Modbus.Lemmas.TcpHeader
 /-
 Helper lemmas for C07 (decoders are total): `≠ .panic` through `bind`/`map`, the checked reads
 behind their guards, the PDU decoders, the frame extractors, the generic scan loop.
@@ -289,26 +290,22 @@ theorem Rtu.extractFrame_ne_panic (buf : Bytes) (n : Nat) (h : n + 3 < usizeLimi
 
 theorem Tcp.extractFrame_eq_panic_iff (buf : Bytes) (n : Nat) :
     Tcp.extractFrame buf n = .panic ↔ buf ≠ [] ∧ usizeLimit ≤ n + 7 := by
-  unfold Tcp.extractFrame
   cases buf with
-  | nil => simp
+  | nil => simp [Tcp.extractFrame]
   | cons x xs =>
-    simp only [List.isEmpty_cons, Bool.false_eq_true, if_false, ne_eq, reduceCtorEq,
-      not_false_eq_true, true_and]
+    simp only [ne_eq, reduceCtorEq, not_false_eq_true, true_and]
     by_cases ho : 7 + n ≥ usizeLimit
-    · rw [if_pos ho]; simp only [true_iff]; omega
-    · rw [if_neg ho]
-      have : ¬ usizeLimit ≤ n + 7 := by omega
+    · unfold Tcp.extractFrame
+      simp only [List.isEmpty_cons, Bool.false_eq_true, if_false]
+      rw [if_pos ho]; simp only [true_iff]; omega
+    · have : ¬ usizeLimit ≤ n + 7 := by omega
       simp only [this, iff_false]
-      refine ite_ne_panic (fun hl => ?_) (fun _ => ok_ne_panic _)
-      have hlen : ((x :: xs).take (7 + n)).length = 7 + n := by
-        rw [List.length_take]; omega
-      refine read16_bind_ne_panic (by omega) (fun p => ?_)
-      refine ite_ne_panic (fun _ => err_ne_panic _) (fun _ => ?_)
-      refine read16_bind_ne_panic (by omega) (fun t => ?_)
-      refine read16_bind_ne_panic (by omega) (fun l => ?_)
-      refine idx_bind_ne_panic (by omega) (fun u => ?_)
-      exact ite_ne_panic (fun _ => err_ne_panic _) (fun _ => ok_ne_panic _)
+      rw [Tcp.extractFrame_eq (by simp) (by omega)]
+      refine Res.bind_ne_panic (Tcp.checkProtocolId_ne_panic _) (fun _ _ => ?_)
+      refine Res.bind_ne_panic (Tcp.checkLengthField_ne_panic _ _) (fun _ _ => ?_)
+      by_cases hl : (x :: xs).length ≥ 7 + n
+      · rw [dif_pos hl]; exact ok_ne_panic _
+      · rw [dif_neg hl]; exact ok_ne_panic _
 
 theorem Tcp.extractFrame_ne_panic (buf : Bytes) (n : Nat) (h : n + 7 < usizeLimit) :
     Tcp.extractFrame buf n ≠ .panic := by
@@ -373,15 +370,25 @@ theorem Rtu.attemptRsp_ne_panic (raw : Bytes) : Rtu.attemptRsp raw ≠ .panic :=
     Rtu.extractFrame_ne_panic raw n (by
       have := Rtu.responsePduLen_le raw n hn; have := usizeLimit_big; omega))
 
+theorem Tcp.checked_ne_panic (pred : Bytes → Res (Option Nat)) (raw : Bytes) (h : pred raw ≠ .panic) :
+    ((Tcp.checkProtocolId raw).bind fun _ => pred raw) ≠ .panic :=
+  Res.bind_ne_panic (Tcp.checkProtocolId_ne_panic raw) (fun _ _ => h)
+
+theorem Tcp.checked_some (pred : Bytes → Res (Option Nat)) (raw : Bytes) (n : Nat)
+    (h : ((Tcp.checkProtocolId raw).bind fun _ => pred raw) = .ok (some n)) : pred raw = .ok (some n) := by
+  rcases Tcp.checkProtocolId_cases raw with hp | ⟨_, _, hp⟩ <;> rw [hp] at h
+  · exact h
+  · cases h
+
 theorem Tcp.attemptReq_ne_panic (raw : Bytes) : Tcp.attemptReq raw ≠ .panic :=
-  mkAttempt_ne_panic _ _ _ raw (Tcp.requestPduLen_ne_panic raw) (fun n hn =>
+  mkAttempt_ne_panic _ _ _ raw (Tcp.checked_ne_panic _ raw (Tcp.requestPduLen_ne_panic raw)) (fun n hn =>
     Tcp.extractFrame_ne_panic raw n (by
-      have := Tcp.requestPduLen_le raw n hn; have := usizeLimit_big; omega))
+      have := Tcp.requestPduLen_le raw n (Tcp.checked_some _ raw n hn); have := usizeLimit_big; omega))
 
 theorem Tcp.attemptRsp_ne_panic (raw : Bytes) : Tcp.attemptRsp raw ≠ .panic :=
-  mkAttempt_ne_panic _ _ _ raw (Tcp.responsePduLen_ne_panic raw) (fun n hn =>
+  mkAttempt_ne_panic _ _ _ raw (Tcp.checked_ne_panic _ raw (Tcp.responsePduLen_ne_panic raw)) (fun n hn =>
     Tcp.extractFrame_ne_panic raw n (by
-      have := Tcp.responsePduLen_le raw n hn; have := usizeLimit_big; omega))
+      have := Tcp.responsePduLen_le raw n (Tcp.checked_some _ raw n hn); have := usizeLimit_big; omega))
 
 /-! ### the "exception first, then normal response" step of the client-side ADU decoders -/
 
